@@ -209,7 +209,23 @@ def make_judges(ctx):
             car = ev.args[0] if ev.args else ev.kwargs.get('x')
             kw = dict(ev.kwargs)
             raw = bool(kw.get('raw', False))
-            if kw.get('n_word') is None or kw.get('n_frac') is None or kw.get('like') is not None:
+            fn_dom = None
+            if isinstance(kw.get('like'), Fxp) and not any(kw.get(n_) is not None for n_ in ('signed', 'n_word', 'n_frac', 'n_int', 'dtype')):
+                lp = next((p_ for o_, p_ in zip(ev.operands, ev.pre) if o_ is kw['like']), None)
+                if lp is None or lp.is_complex or lp.scaled:
+                    return
+                fn_dom = lp.fmt()           # the template decides the format, its signedness included
+            elif kw.get('like') is not None:
+                return
+            elif isinstance(kw.get('dtype'), str) and not any(kw.get(n_) is not None for n_ in ('signed', 'n_word', 'n_frac', 'n_int')):
+                try:
+                    sg_, w_, nf_, cx_ = R.parse_dtype(kw['dtype'])
+                except (ValueError, TypeError):
+                    return
+                if cx_:
+                    return
+                fn_dom = (sg_, w_, nf_)
+            elif kw.get('n_word') is None or kw.get('n_frac') is None:
                 return
             route = 'from_bin_function'
             from_bin = True
@@ -221,7 +237,9 @@ def make_judges(ctx):
         strs, shape = so
         if ev.kind == 'function':
             post = ev.result_snap
-            dom = (bool(ev.kwargs.get('signed', True)) if ev.kwargs.get('signed') is not None else True, ev.kwargs.get('n_word'), ev.kwargs.get('n_frac'))
+            dom = fn_dom or (bool(ev.kwargs.get('signed', True)) if ev.kwargs.get('signed') is not None else True, ev.kwargs.get('n_word'), ev.kwargs.get('n_frac'))
+            if fn_dom is not None:
+                ctx.floor_hit(('from_bin_function', 'like' if ev.kwargs.get('like') is not None else 'dtype', dom[0]))
         else:
             post = ev.post[0] if ev.post else None
             pre = ev.pre[0] if ev.pre else None
@@ -288,7 +306,8 @@ def floors(tier):
     cells += [('parse', 'bin', 'from_bin', 'value'), ('parse', 'bin', 'from_bin', 'raw'), ('parse', 'bin', 'from_bin_function', 'value'), ('parse', 'bin.dot', 'constructor', 'value')]
     cells += [('parse-container', 'list', 1), ('parse-container', 'list', 2), ('parse-container', 'ndarray', 1), ('parse-container', 'ndarray', 2), ('parse-container', 'list-of-arrays', 2)]
     cells += [('parse-container', 'tuple', 1), ('parse-container', 'tuple', 2), ('parse', 'bin.dot', 'from_bin', 'value'), ('parse', 'bin.dot', 'from_bin_function', 'value'),
-              ('parse-point-at-an-end', 'from_bin'), ('parse-point-at-an-end', 'constructor'), ('render-point-prefix-at-an-end',)]
+              ('parse-point-at-an-end', 'from_bin'), ('parse-point-at-an-end', 'constructor'), ('render-point-prefix-at-an-end',),
+              ('roundtrip-as-returned', 'wide'), ('roundtrip-as-returned', 'core'), ('from_bin_function', 'like', True), ('from_bin_function', 'like', False), ('from_bin_function', 'dtype', False)]
     cells += [('parse-prefix', pf) for pf in ('b', 'B', '0B', 'x', 'X', '0X', 'h', '0h', 'H', '0H')] + [('render-cfg', 'bin_prefix'), ('render-cfg', 'hex_prefix_none')]
     return cells
 
@@ -352,6 +371,8 @@ def roundtrip(ctx, x, s, w, nf, arrays=True):
         if b is not None:
             _try(lambda: mk().from_bin(fresh(b), raw=raw))
             _try(lambda: fm.from_bin(fresh(b), signed=s, n_word=w, n_frac=nf, raw=raw))
+            _try(lambda: fm.from_bin(fresh(b), like=mk(), raw=raw))
+            _try(lambda: fm.from_bin(fresh(b), dtype=R.dtype_fxp(s, w, nf), raw=raw))
     # the renderings exactly as returned (a 2-dimensional object gives a list of arrays of strings)
     if not isinstance(h, str) and h is not None and len(getattr(x.val, 'shape', ())) == 2:
         for raw in (True, False):
@@ -359,6 +380,25 @@ def roundtrip(ctx, x, s, w, nf, arrays=True):
                 continue
             _try(lambda: Fxp(copy.deepcopy(h), s, w, nf, raw=raw))
             _try(lambda: Fxp(copy.deepcopy(bp), s, w, nf, raw=raw))
+            if raw:
+                # whatever container the rendering came in: fed back as it is, it restores the codes (workload-level, the parse judge only decodes the
+                # containers it knows)
+                want_codes = np.asarray(x.val, dtype=object).ravel().tolist()
+                for nm, rr in (('hex()', h), ('bin(prefix=)', bp)):
+                    if rr is None:
+                        continue
+                    try:
+                        back = Fxp(copy.deepcopy(rr), s, w, nf, raw=True)
+                        got_codes = np.asarray(back.val, dtype=object).ravel().tolist()
+                        err = None
+                    except Exception as e:
+                        got_codes, err = None, e
+                    if err is not None or [int(c_) for c_ in got_codes] != [int(c_) for c_ in want_codes]:
+                        ctx.violation('roundtrip_as_returned', '%s of a 2-dimensional %s fed back as returned %s' % (
+                            nm, R.dtype_fxp(s, w, nf), ('raised %s: %s' % (type(err).__name__, str(err)[:100])) if err is not None else 'gave codes %s instead of %s' % (got_codes[:4], want_codes[:4])),
+                            key='roundtrip.as_returned')
+                    ctx.judged(('roundtrip-as-returned', nm, G.word_class(w)), True, None)
+                    ctx.floor_hit(('roundtrip-as-returned', 'wide' if w > 64 else 'core'))
             _try(lambda: mk().set_val(copy.deepcopy(h), raw=raw))
             if not raw:
                 _try(lambda: mk()(copy.deepcopy(bp)))
